@@ -56,10 +56,10 @@ def run_mutant(path):
 def run_benign(path):
     """a behaviour-preserving variant of /repo: the named check must stay silent (exit 0, no VIOLATION)"""
     name = os.path.basename(path)[:-5]
-    m = re.match(r"^(C\d+)-", name)
+    m = re.match(r"^(C\d+|ALL)-", name)
     if not m:
         return name, False, "bad file name"
-    pid = m.group(1)
+    pids = [m.group(1)] if m.group(1) != "ALL" else ["C%02d" % i for i in range(1, 21)]
     tmp = tempfile.mkdtemp(prefix="verif-selftest-")
     try:
         for d in DIRS:
@@ -69,10 +69,13 @@ def run_benign(path):
         if r.returncode != 0:
             return name, False, "patch does not apply: " + r.stdout[-300:]
         env = dict(os.environ, VERIF_REPO=tmp, VERIF_EVID_DIR=os.path.join(tmp, "_evidence"))
-        r = subprocess.run([os.path.join(VERIF, "check"), pid], cwd=VERIF, env=env, stdout=subprocess.PIPE, stderr=subprocess.STDOUT, text=True, timeout=1800)
-        if r.returncode == 0 and "VIOLATION" not in r.stdout:
-            return name, True, r.stdout.strip().splitlines()[-1][:160]
-        return name, False, "exit %d: %s" % (r.returncode, r.stdout[-400:].replace(tmp + "/", ""))
+        last = ""
+        for pid in pids:
+            r = subprocess.run([os.path.join(VERIF, "check"), pid], cwd=VERIF, env=env, stdout=subprocess.PIPE, stderr=subprocess.STDOUT, text=True, timeout=1800)
+            if not (r.returncode == 0 and "VIOLATION" not in r.stdout):
+                return name, False, "%s exit %d: %s" % (pid, r.returncode, r.stdout[-400:].replace(tmp + "/", ""))
+            last = r.stdout.strip().splitlines()[-1][:160]
+        return name, True, last if len(pids) == 1 else "all 20 checks silent"
     finally:
         shutil.rmtree(tmp, ignore_errors=True)
 
